@@ -2,6 +2,18 @@
 """Regenerate the seeded-change table of DESIGN.md section 10 from /verif/seeded/*/meta.json."""
 import json, glob, os, re
 NOTES = {
+ "C18h-store-add-store-addnode-dropped": "missed at first: no path of the alphabet repeated a segment name; chain `a / a.a / a.a.a` added",
+ "C19h-share-change-share-create-refactored": "missed at first: no create() call named a new field twice; repeated-name create calls added (first value stays)",
+ "C22h-log-update-per-loggee-guard": "missed at first: every loggee was stamped at creation; never-stamped loggee shards (two loggees, either position) added",
+ "C23h-log-flush-made-conditional-new": "missed at first: C23 had no streak/deck log; queue-rule family (one element per tick) added to the crash histories",
+ "C35h-gramstack-servicetxpktsonce-udpstack-serviceallt": "missed at first: Once family required exactly-once and order only; progress oracle (a healthy destination is not blocked by a failing one) added",
+ "C36h-stack-init-declares-rxbs-bytearray": "made the check exit 2 at first (state shared between executions = replay divergence); a divergence confirmed in a fresh process is now a VIOLATION (core)",
+ "C42h-monotimer-update-cleaned-up-read": "missed at first: the model accepted `latest` kept or advanced after TimerRetroError; now the timer must be unchanged after the error",
+ "C47h-framer-prune-called-razer-actor": "missed at first: prune() was not in the alphabet; prune op + twin-houses family added",
+ "C05i-suspender-resuspend-run-conditional-aux": "missed at first: at most two conditional auxes on a frame; three-aux family added to C05/C10",
+ "C09i-needdoneaux-resolve-resolves-frame-named": "missed at first: done needs never named a frame of another framer; cross-framer `in frame F in framer R` needs added",
+ "C15i-builder-buildlog-duplicate-log-file": "missed at first: no two logs of one logger wrote to the same file; duplicate-file families (every clause subset and order) added",
+ "C34i-patron-redirect-tidied-take-components": "missed at first: no Location path carried a percent-escape; `%C3%A9` / `%20` paths in the absolute and relative forms, compared after decoding exactly once",
  "C04g-framer-checkstart-checks-entry-needs": "missed at first by C04: the slave's guard was always on its first frame; guard on the frame under the first frame added",
  "C08g-act-clone-deep-copies-act": "missed at first by C08 (C12 family existed): clone-guards family (negated let in clones) added to C08",
  "C09g-frame-checkenter-while-wrapping-aux": "missed at first: no aux (clone or not) whose own first frame carries a shared original aux; nested-shared family added",
